@@ -1,4 +1,6 @@
 """C08 — Bundles compose and decompose losslessly, including nesting."""
+import os
+import re
 import struct
 
 from props import c01 as C01
@@ -20,36 +22,75 @@ THEOREMS = [
     "Rtosc.Osc.decompose_encode",
     "Rtosc.Osc.compose_decompose",
     "Rtosc.Osc.appendBundle_eq_spec",
+    "Rtosc.Osc.bundle_output_composes",
+    "Rtosc.Osc.BW.stores_eq_storesFast",
 ]
 HARNESS = {"src": ["bundle.cpp"], "exclude": ["src/cpp/subtree-serialize.cpp"], "deps": ["common.h", "bundle_common.h"]}
-RULE = ("element trees with 0..8 elements per bundle and nesting depth 0..4, every message element drawn from C01's "
-        "space (all 17 type symbols, boundary values, strings/blobs of every residue mod 4), 64-bit time tags from a "
-        "boundary set + random; every (nested) bundle is composed by the real rtosc_bundle (one literal call site per "
-        "element count) into its own exact-size heap block, nested bundles followed by a zero word (capacity >= size+4); "
-        "top-level capacity exact / slack / too small; the result is taken apart on an exact-size heap copy with "
-        "rtosc_bundle_p/_elements/_fetch/_size/_timetag/rtosc_message_length recursively; append_bundle sequences; "
-        "rtosc_bundle_p on plain messages. A small stream puts nested bundles into blocks without the zero word "
-        "(known finding C08-K4). Non-trivial = at least one element; distinct = distinct op line")
-ASSUMPTIONS = ["every message element is well-formed (C01) and its address does not start with '#'",
+RULE = ("element trees with 0..8 elements per bundle (a fraction with 9..32) and nesting depth 0..4, every message element "
+        "drawn from C01's space (all 17 type symbols, boundary values, strings/blobs of every residue mod 4; a fraction with "
+        "up to 40 tags and with one string/blob of 100..4096 bytes; in every run a few elements and nested bundles of 65532.."
+        "70000 bytes, so that every byte of a size field is exercised), 64-bit time tags from a boundary set + random; every "
+        "(nested) bundle is composed by the real rtosc_bundle (one literal call site per element count up to 8, one 40-pointer "
+        "call site above) into its own exact-size block, nested bundles followed by a zero word (capacity >= size+4); "
+        "top-level capacity exact / slack / too small (too small: outside this property, only r=0 is compared with the "
+        "model); the result is taken apart on an exact-size copy with rtosc_bundle_p/_elements/_fetch/_size/_timetag/"
+        "rtosc_message_length recursively; append_bundle sequences; rtosc_bundle_p on plain messages. About a third of the "
+        "ops run in ARENA mode (Cr/Ar): all blocks come from one region whose addresses are reused by every op (poisoned "
+        "around the blocks) and a decoy composition with other contents at the same addresses precedes the real one, so "
+        "that anything remembered per element address shows up. A small stream puts nested bundles into blocks without the "
+        "zero word (known finding C08-K4). Non-trivial = at least one element; distinct = distinct op line")
+ASSUMPTIONS = ["every message element is well-formed (C01) and its address does not start with '#' (Elem.WF excludes every "
+               "such address although only the 8 bytes \"#bundle\\0\" would be misread; OSC addresses start with '/')",
                "a bundle handed to rtosc_bundle as an element is followed by a zero word inside its allocation "
-               "(rtosc_bundle cannot know its length otherwise: K4, rtosc.c:750); messages need nothing behind them",
-               "every bundle is shorter than 2^32 bytes; at most 8 elements per call in the harness (variadic call sites)",
+               "(rtosc_bundle cannot know its length otherwise: K4, rtosc.c:750); messages need nothing behind them; "
+               "bundle_output_composes: what rtosc_bundle writes into a buffer >= size+4 meets this precondition",
+               "every bundle is shorter than 2^32 bytes; the property's input space has 0..8 elements per bundle, the harness "
+               "goes up to 40 (variadic call sites)",
                "rtosc_bundle_fetch/size are only asked for elements that exist (index < count); the buffer handed to "
-               "rtosc_bundle_elements with len > size is zero behind the bundle (what rtosc_bundle's memset leaves)"]
+               "rtosc_bundle_elements with len > size is zero behind the bundle (what rtosc_bundle's memset leaves)",
+               "the functions are pure functions of the bytes they are given (no state between calls): not a theorem about "
+               "the C code; probed by the arena ops (same addresses, other contents, before every composition)",
+               "what the destination holds after a call that does not fit is C02's clause and is not compared here"]
 TRUSTED = ["hand-written model RtoscModel/Osc/Bundle.lean of rtosc_bundle*, rtosc_message_length(msg,-1) and append_bundle",
-           "C01's models of rtosc_message_length (Osc/Length.lean)"]
-LEVEL_TEXT = ("Lean theorems, by induction over the element list for bundles nested to any depth: rtosc_bundle writes "
-              "exactly the OSC 1.0 bundle encoding and returns its length; rtosc_bundle_p holds of it; "
+           "C01's models of rtosc_message_length (Osc/Length.lean)",
+           "the compiled driver runs BW.storesFast (a linear splice) in place of BW.stores; proved equal "
+           "(csimp rule BW.stores_eq_storesFast)"]
+LEVEL_TEXT = ("Lean theorems, by induction over the element list for bundles nested to any depth, under the precondition "
+              "that every nested-bundle element is followed by a zero word inside its block (known finding C08-K4; "
+              "bundle_output_composes shows that rtosc_bundle's own output in a buffer >= size+4 meets it): rtosc_bundle "
+              "writes exactly the OSC 1.0 bundle encoding and returns its length; rtosc_bundle_p holds of it; "
               "rtosc_bundle_elements reports the number of elements; rtosc_bundle_fetch/size return every element "
               "byte-identical with its exact size; the time tag is preserved; rtosc_message_length reports the total "
               "length; a message whose address is not \"#bundle\" is never taken for a bundle; append_bundle extends the "
-              "bundle by one element. The model is compared with the compiled implementation (ASan/UBSan, exact-size heap "
-              "blocks) on generated element trees and the round trip is evaluated on the implementation's output by an "
-              "independent Python bundle codec")
+              "bundle by one element. The model is compared with the compiled implementation (ASan/UBSan, exact-size "
+              "blocks, heap and reused-address arena) on generated element trees and the round trip is evaluated on the "
+              "implementation's output by an independent Python bundle codec")
 LEVEL_NOTE = ("Trusted: Lean kernel; the hand-written model is tied to the code by differential execution only; see "
               "evidence trusted_base. bundle_eq_spec is proved under the precondition that nested-bundle elements are followed by a zero word "
               "(known finding C08-K4: rtosc_bundle finds an element's size with rtosc_message_length(msg,-1), which for "
               "a bundle reads one word past its end); the counterexample is a theorem as well")
+HAVE_APPEND = True
+
+
+def probe_append_bundle():
+    """harness/bundle.cpp calls the file-static append_bundle of subtree-serialize.cpp by name.  If the tree has no
+    function of that name and signature any more the harness still compiles (fallback overload) but cannot drive it:
+    the append stream is then not generated, and this note goes into the evidence."""
+    global HAVE_APPEND
+    import vlib
+    try:
+        src = open(os.path.join(vlib.REPO, "src/cpp/subtree-serialize.cpp")).read()
+    except OSError:
+        src = ""
+    HAVE_APPEND = re.search(r"size_t\s+append_bundle\s*\(\s*char\s*\*\s*\w+\s*,\s*const\s+char\s*\*\s*\w+\s*,\s*size_t\s+\w+\s*,"
+                            r"\s*size_t\s+\w+\s*,\s*size_t\s+\w+\s*\)", src) is not None
+    if HAVE_APPEND:
+        return "append_bundle(char*, const char*, size_t, size_t, size_t) found in subtree-serialize.cpp"
+    return ("harness out of date: subtree-serialize.cpp has no append_bundle(char*, const char*, size_t, size_t, size_t); "
+            "the append_bundle stream is NOT run (appendBundle_eq_spec is then tied to the code by nothing)")
+
+
+TRANSLATORS = [probe_append_bundle]
 MAGIC = b"#bundle\0"
 
 hx = C01.hx
@@ -217,23 +258,52 @@ def rand_tt(rng, stats=None):
 _NOSTAT = {"empty_str": 0, "null_blob": 0, "f_via_double": 0}
 
 
-def rand_msg(rng, small=False):
-    tags = C01.rand_tags(rng, 0, 3 if small else 6)
-    args = [C01.rand_arg(rng, t, "A", dict(_NOSTAT)) for t in tags if bytes([t]) in C01.PAYLOAD]
+LONG = [100, 255, 256, 257, 1023, 1024, 1025, 4096]
+
+
+def rand_msg(rng, small=False, wide=False):
+    """wide: the full message shape of C01 (up to 40 tags), sometimes with one long string / blob"""
+    tags = C01.rand_tags(rng, 0, 40) if wide else C01.rand_tags(rng, 0, 3 if small else 6)
+    pt = [t for t in tags if bytes([t]) in C01.PAYLOAD]
+    args = [C01.rand_arg(rng, t, "A", dict(_NOSTAT)) for t in pt]
     # blob (n, None) = n zero bytes; (n, data) with a longer block = its first n bytes: encode() handles both
+    if wide and rng.random() < 0.3:
+        idx = [i for i, t in enumerate(pt) if bytes([t]) in b"sSb"]
+        if idx:
+            i = rng.choice(idx)
+            n = rng.choice(LONG)
+            args[i] = bytes(rng.randint(1, 255) for _ in range(n)) if bytes([pt[i]]) in b"sS" else \
+                (n, bytes(rng.getrandbits(8) for _ in range(n)))
     addr = C01.rand_addr(rng, rng.randint(1, 9) if small else None)
     return C01.encode(addr, tags, args)
 
 
-def rand_tree(rng, depth, maxkids, small=False):
+def sized_msg(rng, size, allow_str=False):
+    """a message of exactly `size` bytes (size % 4 == 0, size >= 16): one blob or one string fills it.
+    (A 64 KiB *string* costs the Lean driver about a minute - C01's length model walks a list with indices -
+    so the quick tier uses blobs for the big elements; strings of up to 4 KiB are in the ordinary streams.)"""
+    addr = b"/" + bytes(rng.randint(0x61, 0x7a) for _ in range(rng.randint(1, 2)))     # 4 bytes padded
+    if not allow_str or rng.random() < 0.5:
+        n = size - 4 - 4 - 4                                   # address, ",b\0\0", length word
+        n -= rng.randint(0, 3) if n >= 4 else 0                # any residue: padding fills up
+        m = C01.encode(addr, b"b", [(n, bytes(rng.getrandbits(8) for _ in range(n)))])
+    else:
+        n = size - 4 - 4 - 1
+        n -= rng.randint(0, 3) if n >= 4 else 0
+        m = C01.encode(addr, b"s", [bytes(rng.randint(1, 255) for _ in range(n))])
+    assert len(m) == size, (len(m), size)
+    return m
+
+
+def rand_tree(rng, depth, maxkids, small=False, wide=False):
     """a bundle node of nesting depth <= depth; capacities are filled in by set_caps"""
     n = rng.randint(0, maxkids)
     kids = []
     for _ in range(n):
         if depth > 0 and rng.random() < 0.35:
-            kids.append(rand_tree(rng, depth - 1, max(1, maxkids // 2), small))
+            kids.append(rand_tree(rng, depth - 1, max(1, maxkids // 2), small, wide))
         else:
-            kids.append(("m", rand_msg(rng, small)))
+            kids.append(("m", rand_msg(rng, small, wide and rng.random() < 0.5)))
     return ["B", rand_tt(rng), None, kids]
 
 
@@ -282,72 +352,138 @@ def count(stats, t):
     stats["size_hist"][min(len(enc(t)) // 64, 15)] += 1
 
 
+def big_trees(rng, quick):
+    """elements and nested bundles whose size needs the upper bytes of the 32-bit size field"""
+    out = []
+    sizes = [65532, 65536, 65540, 70000 - 70000 % 4, 131072 + 4 * rng.randint(0, 8)]
+    pick = [rng.choice(sizes[:3]), rng.choice(sizes[1:3]), sizes[3], sizes[4], sizes[1]] if quick else sizes + sizes[:3]
+    for j, sz in enumerate(pick):
+        small1, small2 = ("m", rand_msg(rng, True)), ("m", rand_msg(rng, True))
+        big = ("m", sized_msg(rng, sz, allow_str=(not quick and j == 0)))
+        if j % 2 == 0:
+            # a big message between two small ones
+            out.append(["B", rand_tt(rng), None, [small1, big, small2]])
+        else:
+            # a nested bundle of exactly sz bytes (16 + 4 + message), between two small messages
+            inner = ["B", rand_tt(rng), None, [("m", sized_msg(rng, sz - 20))]]
+            out.append(["B", rand_tt(rng), None, [small1, inner, small2]])
+    return out
+
+
+# append_bundle the way subtree_serialize grows its bundle; the third message does not fit any more
+APPEND_WITNESSES = ["A 52 Bdeadbeef0a0b0c0d:0:52 m2f6100002c000000 m2f6200002c690000000000ff m2f6300002c000000"]
+
+
 def generate(rng, tier, stats):
     quick = tier == "quick"
     stats.update({"compose": 0, "append": 0, "bundle_p": 0, "k4_stream": 0, "tt_boundary": 0, "cap_exact": 0,
-                  "cap_slack4+": 0, "cap_slack1-3": 0, "cap_too_small": 0, "depth_hist": [0] * 5,
-                  "elems_hist": [0] * 9, "size_hist": [0] * 16, "append_full": 0})
-    # every element count x nesting depth
-    for n in range(0, 9):
-        for d in range(0, 5):
-            for _ in range(3 if quick else 40):
-                kids = []
-                for j in range(n):
-                    if d > 0 and (j == 0 or rng.random() < 0.3):
-                        kids.append(rand_tree(rng, d - 1, 3, small=True))
-                    else:
-                        kids.append(("m", rand_msg(rng, small=True)))
-                t = set_caps(rng, ["B", rand_tt(rng, stats), None, kids], top_cap_fn(rng, stats))
-                count(stats, t)
-                stats["compose"] += 1
-                yield " ".join(["C"] + tokens(t))
-    # every boundary time tag
-    for tt in TT_SET:
-        t = set_caps(rng, ["B", tt, None, [("m", rand_msg(rng, True))]], lambda s: s)
+                  "cap_slack4+": 0, "cap_slack1-3": 0, "cap_too_small": 0, "depth_hist": [0] * 5, "arena_ops": 0,
+                  "elems_hist": [0] * 9, "many_elems": 0, "size_hist": [0] * 16, "append_full": 0, "wide_trees": 0,
+                  "big_sizes": [], "append_bundle_driven": HAVE_APPEND})
+
+    def c_op(t):
+        """a third of the compositions in arena mode (never the ones without the zero word: K4 is a heap finding)"""
+        if rng.random() < 0.35 and nested_status(t)[0]:
+            stats["arena_ops"] += 1
+            return "Cr"
+        return "C"
+
+    big = big_trees(rng, quick)
+
+    def body():
+        # every element count x nesting depth
+        for n in range(0, 9):
+            for d in range(0, 5):
+                for _ in range(3 if quick else 40):
+                    kids = []
+                    for j in range(n):
+                        if d > 0 and (j == 0 or rng.random() < 0.3):
+                            kids.append(rand_tree(rng, d - 1, 3, small=True))
+                        else:
+                            kids.append(("m", rand_msg(rng, small=True)))
+                    t = set_caps(rng, ["B", rand_tt(rng, stats), None, kids], top_cap_fn(rng, stats))
+                    count(stats, t)
+                    stats["compose"] += 1
+                    yield " ".join([c_op(t)] + tokens(t))
+        # every boundary time tag
+        for tt in TT_SET:
+            t = set_caps(rng, ["B", tt, None, [("m", rand_msg(rng, True))]], lambda s: s)
+            stats["compose"] += 1
+            yield " ".join([c_op(t)] + tokens(t))
+        # random trees
+        for _ in range(20000 if quick else 300000):
+            wide = rng.random() < 0.12
+            stats["wide_trees"] += wide
+            t = set_caps(rng, rand_tree(rng, rng.randint(0, 4), rng.choice([1, 2, 3, 4, 8]), wide=wide), top_cap_fn(rng, stats))
+            count(stats, t)
+            stats["compose"] += 1
+            yield " ".join([c_op(t)] + tokens(t))
+        # more elements than the property asks for (9..32): the other call site of the harness
+        for _ in range(300 if quick else 6000):
+            kids = [("m", rand_msg(rng, small=True)) if rng.random() < 0.85 else rand_tree(rng, rng.randint(0, 1), 2, small=True)
+                    for _ in range(rng.randint(9, 32))]
+            t = set_caps(rng, ["B", rand_tt(rng), None, kids], top_cap_fn(rng, stats))
+            stats["many_elems"] += 1
+            stats["compose"] += 1
+            yield " ".join([c_op(t)] + tokens(t))
+        # nested bundles in blocks without the zero word (K4)
+        for _ in range(12 if quick else 40):
+            kids = [rand_tree(rng, rng.randint(0, 1), 2, small=True)] + [("m", rand_msg(rng, True)) for _ in range(rng.randint(0, 2))]
+            rng.shuffle(kids)
+            t = set_caps(rng, ["B", rand_tt(rng), None, kids], lambda s: s + 8, exact_nested=True)
+            stats["k4_stream"] += 1
+            yield " ".join(["C"] + tokens(t))
+        # append_bundle
+        if HAVE_APPEND:
+            yield from APPEND_WITNESSES
+        for _ in range(4000 if quick and HAVE_APPEND else 60000 if HAVE_APPEND else 0):
+            base = rand_tree(rng, rng.randint(0, 1), 3, small=True)
+            # sources: messages, and now and then a whole (nested) bundle, the way a serialised subtree is appended
+            msgs = [rand_msg(rng, small=True) if rng.random() < 0.8 else
+                    enc(set_caps(rng, rand_tree(rng, rng.randint(0, 1), 2, small=True), lambda s_: s_))
+                    for _ in range(rng.randint(1, 4))]
+            stats["append_bundle_sources"] = stats.get("append_bundle_sources", 0) + sum(m[:8] == MAGIC for m in msgs)
+            need = len(enc(("B", base[1], 0, [strip_caps(k) for k in base[3]]))) + sum(4 + len(m) for m in msgs)
+            r = rng.random()
+            if r < 0.6:
+                cap = need + rng.randint(0, 12)
+                max_len = cap
+            elif r < 0.8:
+                cap = need + rng.randint(0, 12)
+                max_len = rng.randint(max(cap - 40, 0), cap)
+                stats["append_full"] += 1
+            else:
+                cap = max(need - rng.randint(1, 24), 0)
+                max_len = cap
+                stats["append_full"] += 1
+            t = set_caps(rng, base, lambda s: cap)
+            stats["append"] += 1
+            a = "A"
+            if rng.random() < 0.35 and nested_status(t)[0]:
+                a = "Ar"
+                stats["arena_ops"] += 1
+            yield " ".join([a, str(max_len)] + tokens(t) + ["m" + hx(m) for m in msgs])
+        # rtosc_bundle_p on plain messages (and on the one address that *is* the magic)
+        for _ in range(600 if quick else 20000):
+            stats["bundle_p"] += 1
+            r = rng.random()
+            if r < 0.8:
+                yield "P " + hx(rand_msg(rng))
+            else:
+                addr = rng.choice([b"#bundle", b"#bundlf", b"#bundle2", b"#b", b"#bundl", b"/#bundle", b"#", b"#bundle/x"])
+                yield "P " + hx(C01.encode(addr, b"i", [rng.getrandbits(32)]))
+
+    rest = list(body())
+    step = max(len(rest) // (len(big) + 1), 1)
+    pos = 0
+    for j, bt in enumerate(big):
+        yield from rest[pos:pos + step]
+        pos += step
+        t = set_caps(rng, bt, lambda s: s + rng.choice([0, 4, 8]))
+        stats["big_sizes"].append(len(enc(t)))
         stats["compose"] += 1
-        yield " ".join(["C"] + tokens(t))
-    # random trees
-    for _ in range(20000 if quick else 300000):
-        t = set_caps(rng, rand_tree(rng, rng.randint(0, 4), rng.choice([1, 2, 3, 4, 8])), top_cap_fn(rng, stats))
-        count(stats, t)
-        stats["compose"] += 1
-        yield " ".join(["C"] + tokens(t))
-    # nested bundles in blocks without the zero word (K4)
-    for _ in range(12 if quick else 40):
-        kids = [rand_tree(rng, rng.randint(0, 1), 2, small=True)] + [("m", rand_msg(rng, True)) for _ in range(rng.randint(0, 2))]
-        rng.shuffle(kids)
-        t = set_caps(rng, ["B", rand_tt(rng), None, kids], lambda s: s + 8, exact_nested=True)
-        stats["k4_stream"] += 1
-        yield " ".join(["C"] + tokens(t))
-    # append_bundle
-    for _ in range(4000 if quick else 60000):
-        base = rand_tree(rng, rng.randint(0, 1), 3, small=True)
-        msgs = [rand_msg(rng, small=True) for _ in range(rng.randint(1, 4))]
-        need = len(enc(("B", base[1], 0, [strip_caps(k) for k in base[3]]))) + sum(4 + len(m) for m in msgs)
-        r = rng.random()
-        if r < 0.6:
-            cap = need + rng.randint(0, 12)
-            max_len = cap
-        elif r < 0.8:
-            cap = need + rng.randint(0, 12)
-            max_len = rng.randint(max(cap - 40, 0), cap)
-            stats["append_full"] += 1
-        else:
-            cap = max(need - rng.randint(1, 24), 0)
-            max_len = cap
-            stats["append_full"] += 1
-        t = set_caps(rng, base, lambda s: cap)
-        stats["append"] += 1
-        yield " ".join(["A", str(max_len)] + tokens(t) + ["m" + hx(m) for m in msgs])
-    # rtosc_bundle_p on plain messages (and on the one address that *is* the magic)
-    for _ in range(600 if quick else 20000):
-        stats["bundle_p"] += 1
-        r = rng.random()
-        if r < 0.8:
-            yield "P " + hx(rand_msg(rng))
-        else:
-            addr = rng.choice([b"#bundle", b"#bundlf", b"#bundle2", b"#b", b"#bundl", b"/#bundle", b"#", b"#bundle/x"])
-            yield "P " + hx(C01.encode(addr, b"i", [rng.getrandbits(32)]))
+        yield " ".join(["Cr" if j % 2 else "C"] + tokens(t))
+    yield from rest[pos:]
 
 
 def strip_caps(t):
@@ -382,20 +518,19 @@ def oracle(op, out):
         if out != "p=%d" % want:
             return "rtosc_bundle_p: expected %d, got %s" % (want, out)
         return None
-    if w[0] == "C":
+    if w[0] in ("C", "Cr"):
         t, _ = parse_tokens(w, 1)
         if not all_fit(t, True):
             return None                       # a nested bundle that does not fit its block: outside the property
         size = len(enc(t))
         e = enc(t)
+        if t[2] < size:
+            return None                       # the top-level buffer is too small: C02's clause, not this property's
         if out.startswith("crash"):
             return "composing/decomposing a well-formed bundle crashed: " + out
-        if t[2] < size:
-            exp = "r=0 b=%s" % hexz(b"\0" * t[2])
-        else:
-            exp = "r=%d b=%s %s" % (size, hx(e), expected_readers(t, size))
-            if t[2] >= size + 4:
-                exp += " nz=%d" % len(t[3])
+        exp = "r=%d b=%s %s" % (size, hx(e), expected_readers(t, size))
+        if t[2] >= size + 4:
+            exp += " nz=%d" % len(t[3])
         if out == exp:
             # the round trip once more, through the independent decoder
             f = fields(out)
@@ -403,35 +538,37 @@ def oracle(op, out):
                 return "decoded bundle differs from the composed elements"
             return None
         return diff_msg(out, exp)
-    if w[0] == "A":
+    if w[0] in ("A", "Ar"):
         max_len = int(w[1])
         t, i = parse_tokens(w, 2)
         msgs = [unhx(x[1:]) for x in w[i:]]
-        if not all_fit(t, True) or max_len > t[2]:
+        if out == "no-append-bundle":
+            return None                       # harness out of date (see probe_append_bundle)
+        e = enc(t)
+        if not all_fit(t, True) or max_len > t[2] or t[2] < len(e):
             return None
+        # the property speaks about appends that fit; from the first one that does not, nothing is demanded here
+        # (returning 0 and leaving the destination alone is append_bundle's own contract, store-safety is C02's)
+        ln = len(e)
+        cur = strip(t)
+        buf = bytearray(e)
+        for m in msgs:
+            if len(m) == 0 or max_len < ln + len(m) + 4:
+                return None
+            buf += struct.pack(">I", len(m)) + m
+            ln += 4 + len(m)
+            k = dec(m)
+            if k is None:
+                return None
+            cur = ("B", cur[1], None, cur[3] + [k])
         if out.startswith("crash"):
             return "append_bundle crashed: " + out
-        e = enc(t)
-        buf = bytearray(t[2])
-        ln = 0
-        if t[2] >= len(e):
-            buf[:len(e)] = e
-            ln = len(e)
-        r0 = ln
         rets = []
-        cur = strip(t)
+        k = len(e)
         for m in msgs:
-            if ln == 0 or len(m) == 0 or max_len < ln + len(m) + 4:
-                ln = 0
-            else:
-                buf[ln:ln + 4] = struct.pack(">I", len(m))
-                buf[ln + 4:ln + 4 + len(m)] = m
-                ln += 4 + len(m)
-                cur = ("B", cur[1], None, cur[3] + [("m", m)])
-            rets.append(str(ln))
-        exp = "r=%d a=%s b=%s" % (r0, ",".join(rets) if rets else "-", hexz(bytes(buf)) if ln == 0 else hx(bytes(buf[:ln])))
-        if ln >= 16:
-            exp += " " + expected_readers(cur, ln)
+            k += 4 + len(m)
+            rets.append(str(k))
+        exp = "r=%d a=%s b=%s %s" % (len(e), ",".join(rets) if rets else "-", hx(bytes(buf)), expected_readers(cur, ln))
         if out == exp:
             return None
         return diff_msg(out, exp)
@@ -463,24 +600,30 @@ def known(op, impl_out, model_out, defs):
     rtosc_bundle (rtosc_message_length(msg,-1)) reads past the block.  Attributed only if the trigger holds
     and the implementation does exactly what the defect-mirroring model predicts."""
     w = op.split()
-    if w[0] not in ("C", "A"):
+    if w[0] not in ("C", "A", "Cr", "Ar"):
         return None
-    t, _ = parse_tokens(w, 1 if w[0] == "C" else 2)
+    t, _ = parse_tokens(w, 1 if w[0][0] == "C" else 2)
     ok, k4 = nested_status(t)
     for d in defs:
         if d.get("id") == "C08-K4" and k4 and all_fit(t, True) \
-                and impl_out == "crash:asan:heap-buffer-overflow" and model_out in (None, impl_out):
+                and impl_out == ("crash:asan:use-after-poison" if w[0][-1] == "r" else "crash:asan:heap-buffer-overflow") \
+                and model_out in (None, impl_out):
             return "C08-K4 nested bundle element without terminating zero word (rtosc.c:750)"
+        # the model mirrors the defect; an implementation that handles such an input *correctly* (the oracle is
+        # satisfied) is not a violation of the property: reported as the same finding, "not reproduced"
+        if d.get("id") == "C08-K4" and k4 and all_fit(t, True) and model_out is not None \
+                and model_out.startswith("crash:asan") and not impl_out.startswith("crash") and oracle(op, impl_out) is None:
+            return "C08-K4 (not reproduced: the implementation composed this input correctly; known_findings.d/C08.json is out of date)"
     return None
 
 
 def neighbours(op, rng):
     w = op.split()
-    if w[0] != "C":
+    if w[0] not in ("C", "Cr"):
         return
     t, _ = parse_tokens(w, 1)
     size = len(enc(t))
     for cap in list(range(max(size - 4, 0), size + 9)):
-        yield " ".join(["C"] + tokens(("B", t[1], cap, t[3])))
+        yield " ".join([w[0]] + tokens(("B", t[1], cap, t[3])))
     for k in t[3]:
-        yield " ".join(["C"] + tokens(("B", t[1], size + 8, [k])))
+        yield " ".join([w[0]] + tokens(("B", t[1], size + 8, [k])))
